@@ -14,4 +14,4 @@ echo "== patch: $(grep -c '^[+-][^+-]' $out/patch.diff) changed lines in $(grep 
 # our check against the changed tree
 (cd /verif && VERIF_REPO=$wt timeout 3000 ./check $p > $out/check_quick.txt 2>&1); echo "check $p quick on changed tree: exit $?"; grep -E "VIOLATION|broken:" $out/check_quick.txt | head -3
 # pinned suite on the changed tree, in the background
-(cd $wt && PYTHONPATH=$wt timeout 3000 /venv/bin/python -m pytest -q -p no:cacheprovider --timeout=900 --continue-on-collection-errors --junitxml=$out/suite.xml > $out/suite.log 2>&1; python3 /verif/tools/suitecmp.py $out/suite.xml > $out/suite.txt 2>&1) &
+# (the pinned suite on the changed tree is run separately, one at a time: tools/seedsuite.sh)
